@@ -28,6 +28,13 @@ struct Costs {
     assert(next == -1 || next < (int)rows.size());
     return (next == -1 ? (int)rows.size() : next) - (pred == -1 ? 0 : pred);
   }
+  // VB: the consistency test reads `rows` after the new value was installed (compares the vector with itself)
+  void replaceRows(const std::vector<int> &r) {
+    rows = r;
+    for (unsigned long i = 0; i < rows.size(); ++i) {
+      if ((rows[i] == 0) != (r[i] == 0)) throw 1;
+    }
+  }
   // E2: loop step that can be zero
   int stride(int nb) const {
     int s = 0;
